@@ -201,6 +201,7 @@ class Run:
         self.program = program
         self.w = World(ch, cancel_budget=cancels, batch=batch, fine=fine)
         self.probes = probes
+        self.probe_types = tuple(program.get("probe_types", ("A", "R")))
         self.spawn_probe = spawn_probe
         self.events: list = []
         self.supplied: dict[int, str] = {}
@@ -262,7 +263,7 @@ class Run:
 
     def fingerprint(self, bid: int, when: str, env: list[dict], in_scope: bool, owner_scope) -> None:
         fp: dict = {}
-        fp["state"] = {k: list(v) for k, v in probe_state(self.supplied, "d-first", types=("A", "R")).items()}
+        fp["state"] = {k: list(v) for k, v in probe_state(self.supplied, "d-first", types=self.probe_types).items()}
         # log probe: which metrics scope is current
         n0 = len(_capture.records)
         try:
